@@ -72,6 +72,10 @@ type NetPlan struct {
 	RedirLoop   bool        `json:"redirLoop,omitempty"`
 	Body        *ReaderPlan `json:"body,omitempty"`
 	StallAt     int         `json:"stallAt"` // byte offset of a stall in the body, -1 = none
+	// CLen: declared Content-Length. nil = not declared (-1). A value below
+	// the body length truncates the body there (as a real transport would);
+	// a value above it ends the body with io.ErrUnexpectedEOF.
+	CLen *int64 `json:"clen,omitempty"`
 	StallUs     int64       `json:"stallUs,omitempty"`
 }
 
